@@ -1,5 +1,6 @@
 import GambitV.Model.Params
 import Driver.Proto
+import Driver.PyGenCmp
 namespace Driver.C14
 open GambitV Driver
 
@@ -34,9 +35,12 @@ def handle : List String → Option String
     let failed ← parseBool failed
     let wrote ← parseBool wrote
     let matching ← parseSpecs matching
-    match explicitSpec ek ep with
-    | none => pure (judge .error failed wrote matching)
-    | some e => pure (judge (distDecision e qsig rsig dflt) failed wrote matching)
+    let model := match explicitSpec ek ep with
+      | none => Decision.error
+      | some e => distDecision e qsig rsig dflt
+    let r := judge model failed wrote matching
+    if r != "ok" then pure r else
+    pure ((PyGen.distParams ek ep qsig rsig dflt model).getD "ok")
   | ["c14.querysig", sig, db, failed, wrote, matching] => do
     let sig ← (parseSpec sig).bind id
     let db ← (parseSpec db).bind id
@@ -47,9 +51,12 @@ def handle : List String → Option String
     let db ← parseSpec db
     let dflt ← (parseSpec dflt).bind id
     let dbParams ← parseBool dbParams
-    match explicitSpec ek ep with
-    | none => pure (judge .error (← parseBool failed) (← parseBool wrote) (← parseSpecs matching))
-    | some e => pure (judge (createDecision e dbParams db dflt) (← parseBool failed) (← parseBool wrote) (← parseSpecs matching))
+    let model := match explicitSpec ek ep with
+      | none => Decision.error
+      | some e => createDecision e dbParams db dflt
+    let r := judge model (← parseBool failed) (← parseBool wrote) (← parseSpecs matching)
+    if r != "ok" then pure r else
+    pure ((PyGen.createParams ek ep dbParams db dflt model).getD "ok")
   | _ => none
 
 end Driver.C14
